@@ -231,6 +231,8 @@ impl Object {
     /// It is up to the caller to ensure the object is actually heap-allocated and points to a valid memory location.
     #[inline]
     unsafe fn get<'a, T>(self) -> &'a T {
+        #[cfg(feature = "verif")]
+        crate::verif::on_deref(self.as_ptr());
         &*(self.as_ptr() as *const T)
     }
 
@@ -238,6 +240,8 @@ impl Object {
     /// It is up to the caller to ensure the object is actually heap-allocated and points to a valid memory location.
     #[inline]
     unsafe fn get_mut<'a, T>(self) -> &'a mut T {
+        #[cfg(feature = "verif")]
+        crate::verif::on_deref(self.as_ptr());
         &mut *(self.as_ptr() as *mut T)
     }
 
@@ -438,6 +442,12 @@ impl Float {
 
     #[inline]
     unsafe fn destroy(obj: Object) {
+        #[cfg(feature = "verif")]
+        match crate::verif::on_free(obj.as_ptr()) {
+            1 => return drop_in_place(obj.as_ptr() as *mut Self),
+            2 => return,
+            _ => (),
+        }
         drop_in_place(obj.as_ptr() as *mut Self);
         dealloc(obj.as_ptr(), Layout::new::<Self>());
     }
@@ -456,6 +466,12 @@ struct String {
 
 impl String {
     unsafe fn destroy(ptr: Object) {
+        #[cfg(feature = "verif")]
+        match crate::verif::on_free(ptr.as_ptr()) {
+            1 => return drop_in_place(ptr.as_ptr() as *mut Self),
+            2 => return,
+            _ => (),
+        }
         drop_in_place(ptr.as_ptr() as *mut Self);
         dealloc(ptr.as_ptr(), Layout::new::<Self>());
     }
@@ -479,6 +495,12 @@ impl Array {
 
     /// Drops and deallocate this NlArray struct and its value
     unsafe fn destroy(ptr: Object) {
+        #[cfg(feature = "verif")]
+        match crate::verif::on_free(ptr.as_ptr()) {
+            1 => return drop_in_place(ptr.as_ptr() as *mut Self),
+            2 => return,
+            _ => (),
+        }
         drop_in_place(ptr.as_ptr() as *mut Self);
         dealloc(ptr.as_ptr(), Layout::new::<Self>());
     }
@@ -550,6 +572,8 @@ fn allocate(layout: Layout) -> *mut u8 {
     if ptr.is_null() {
         handle_alloc_error(layout);
     } else {
+        #[cfg(feature = "verif")]
+        crate::verif::on_alloc(ptr, layout);
         ptr
     }
 }
